@@ -304,6 +304,90 @@ def case_task(task):
     finally:
         rmdir(d)
 
+
+# ---------------------------------------------------------------------------------------------- Miri pass
+MIRIFLAGS = '-Zmiri-disable-isolation -Zmiri-tree-borrows -Zmiri-no-short-fd-operations -Zmiri-ignore-leaks'
+MIRI_LENS = [40, 0, 130, 300, 17]
+
+def miri_payload(tag, ln):
+    b = bytearray(tag.to_bytes(8, 'little') + ln.to_bytes(8, 'little'))
+    while len(b) < ln:
+        b.append((tag + len(b)) & 0xFF)
+    return bytes(b[:ln])
+
+def miri_cmd(args):
+    src = os.path.join(common.VERIF, 'harness', 'wmiri')
+    env = common.cargo_env()
+    env['MIRIFLAGS'] = MIRIFLAGS
+    env['CARGO_TARGET_DIR'] = os.path.join(common.BUILD, 'wmiri')
+    env['WALRUS_QUIET'] = '1'
+    return ['cargo', '+nightly', 'miri', 'run', '--offline', '--quiet', '--manifest-path', os.path.join(src, 'Cargo.toml'), '--'] + args, env
+
+def miri_base(root):
+    """tiny base state written by the engine itself (under Miri too): 2 topics x 5 entries, one consumed, clean markers"""
+    import subprocess
+    d = os.path.join(root, 'miribase')
+    shutil.rmtree(d, ignore_errors=True)
+    os.makedirs(d)
+    cmd, env = miri_cmd([d, 'make', 'a', 'b'])
+    r = subprocess.run(cmd, env=env, capture_output=True, text=True, timeout=1800)
+    if 'MADE' not in r.stdout:
+        raise common.BuildError('miri base state: ' + (r.stderr or r.stdout)[-1500:])
+    topics, headers = {}, []
+    seg = sorted(f for f in os.listdir(os.path.join(d, 'k')) if f.isdigit())[0]
+    tag = 0
+    for ti, t in enumerate(['a', 'b']):
+        off = ti * BLOCK
+        ents = []
+        for ln in MIRI_LENS:
+            tag += 1
+            ents.append((tag, ln))
+            headers.append((seg, off, ln))
+            off += HDR + ln
+        topics[t] = ents
+    return {'i': 'miri', 'dir': d, 'params': {'mode': 'strict', 'backend': 'fd'}, 'topics': {t: [list(e) for e in v] for t, v in topics.items()},
+            'headers': headers, 'files': sorted(os.listdir(os.path.join(d, 'k'))), 'miri_topics': topics}
+
+def miri_case(task):
+    import subprocess
+    rng = rng_for(task['seed'], 'C11miri', task['idx'])
+    base = task['base']
+    d = fresh_dir('c11m')
+    try:
+        crash.sparse_copy_tree(base['dir'], d)
+        descs = [mutate(rng, base, d)] if task['idx'] > 0 else []     # case 0: the undamaged directory (control)
+        cmd, env = miri_cmd([d, 'drain', 'a', 'b'])
+        t0 = time.time()
+        try:
+            r = subprocess.run(cmd, env=env, capture_output=True, text=True, timeout=task.get('timeout', 1500))
+        except subprocess.TimeoutExpired:
+            return {'findings': [], 'info': {'mutations': descs, 'watchdog': True}}
+        findings = []
+        err = r.stderr
+        if 'Undefined Behavior' in err:
+            first = next((l.strip() for l in err.splitlines() if 'Undefined Behavior' in l), '')
+            frame = next((l.strip() for l in err.splitlines() if '/repo/src/' in l), '')
+            findings.append({'cls': 'miri(undefined-behavior)', 'detail': {'first': first[:300], 'repo_frame': frame[:200]}})
+        elif 'panicked at' in err:
+            msg = next((l.strip() for l in err.splitlines() if 'panicked at' in l), '')
+            findings.append({'cls': 'panic(miri-run)', 'detail': {'msg': msg[:300]}})
+        elif r.returncode != 0:
+            findings.append({'cls': 'died(miri-run rc=%d)' % r.returncode, 'detail': {'stderr': err[-600:]}})
+        n = 0
+        allowed = {t: {(ln, miri_payload(tag, ln)[:24].hex()) for tag, ln in ents} for t, ents in base['miri_topics'].items()}
+        for l in r.stdout.splitlines():
+            p = l.split(' ')
+            if p[0] == 'E' and p[1] in ('rn', 'br', 'peek'):
+                n += 1
+                key = (int(p[3]), p[4] if len(p) > 4 else '')
+                if key not in allowed.get(p[2], set()):
+                    findings.append({'cls': 'foreign-payload', 'detail': {'topic': p[2], 'got': key}})
+                    break
+        return {'findings': findings, 'info': {'mutations': descs, 'returned_entries': n, 'wall': round(time.time() - t0, 1), 'opened': 'OPENED' in r.stdout,
+                                               'done': 'DONE' in r.stdout}}
+    finally:
+        rmdir(d)
+
 RULE = ('base states: directories written by the engine for generated programs (3 topics, 25-60 ops, rotations, cursors mid-block / at the '
         'tail, clean markers; FD and mmap backends); case = sparse copy + 1-2 seeded mutations out of: bit flips in an entry header (first '
         '120 bytes), forged length prefix, forged 4/8-byte header words (sizes, relative pointers, next-block, checksum), random header '
@@ -320,8 +404,8 @@ def run(tier, seed, budget):
     rep = Report('C11', tier, seed, 'exploration')
     rep.rule = RULE
     rep.required = {'cases': 250, 'returned_entries': 2000, 'mutation:hdr-bitflip': 20, 'mutation:index-damage': 20, 'mutation:truncate': 15,
-                    'mutation:stray': 15, 'mutation:marker-damage': 15, 'cases:asan': 50}
-    rep.assumptions = ['memory errors are observed through debug assertions / overflow checks (debug build) and AddressSanitizer (second pass); Miri is not part of this check',
+                    'mutation:stray': 15, 'mutation:marker-damage': 15, 'cases:asan': 50, 'cases:miri': 8, 'miri_runs_completed': 5}
+    rep.assumptions = ['memory errors are observed through debug assertions / overflow checks (debug build), AddressSanitizer (second pass) and Miri (third pass: tiny directories, FD storage without io_uring / mmap / O_SYNC, Tree Borrows, 16-aligning allocator)',
                        'hang = CPU-time rlimit of the worker (40 s; undamaged directories need < 1 s)']
     root = os.path.join(common.scratch_root(), 'c11bases')
     os.makedirs(root, exist_ok=True)
@@ -378,6 +462,31 @@ def run(tier, seed, budget):
                 rep.add_violation(Violation('C11', f['cls'], f['detail'], ['pass:' + t['pass']] + ['mutation:' + m['kind'] for m in muts],
                                             {'kind': 'c11-mutant', 'pass': t['pass'], 'seed': t['seed'], 'idx': t['idx'], 'base_index': t['base']['i'],
                                              'mutations': muts, 'finding': f}))
+    # ---- Miri pass: the decode paths under an undefined-behaviour interpreter (FD storage, positional-I/O read branch)
+    try:
+        mb = miri_base(root)
+        mt = [{'seed': seed, 'idx': j, 'base': mb} for j in range(14 if q else 320)]
+        for t, res in pmap(miri_case, mt, budget_s=budget):
+            if isinstance(res, Exception):
+                rep.add_inconclusive(f'miri harness error: {res!r}')
+                continue
+            info = res['info']
+            if info.get('watchdog'):
+                rep.add_inconclusive('miri wall-clock watchdog')
+                continue
+            rep.add_case(fingerprint(['miri', t['idx'], info.get('mutations')]), True, {'pass': 'miri', 'mutations': info.get('mutations'), 'returned_entries': info.get('returned_entries')})
+            rep.count('cases')
+            rep.count('cases:miri')
+            if info.get('done'):
+                rep.count('miri_runs_completed')
+            rep.count('returned_entries', info.get('returned_entries', 0))
+            for m in info.get('mutations') or []:
+                rep.count('mutation:' + m['kind'])
+            for f in res['findings']:
+                rep.add_violation(Violation('C11', f['cls'], f['detail'], ['pass:miri'] + ['mutation:' + m['kind'] for m in info.get('mutations') or []],
+                                            {'kind': 'c11-miri', 'seed': t['seed'], 'idx': t['idx'], 'mutations': info.get('mutations'), 'finding': f}))
+    except (common.BuildError, Exception) as e:
+        rep.add_inconclusive('Miri pass unavailable: %r' % (e,))
     return rep.finish()
 
 def replay(path):
